@@ -22,7 +22,11 @@ import os
 import sys
 import typing
 from enum import Enum
+import re
+from datetime import timedelta
+from decimal import Decimal
 from fractions import Fraction
+from uuid import UUID
 from typing import Any, Dict, List, Literal, Set, Tuple, Union
 
 from ..lib import common, tlc
@@ -31,7 +35,7 @@ from ..lib.evidence import Report, machinery_failure
 common.check_repo_import()
 from jsonargparse import ArgumentError, ArgumentParser  # noqa: E402
 from jsonargparse._util import Path as JPath  # noqa: E402
-from jsonargparse.typing import Path_fr  # noqa: E402
+from jsonargparse.typing import Path_fr, get_registered_type, restricted_number_type, restricted_string_type  # noqa: E402
 
 PID = "C02"
 KEY = "k"
@@ -56,6 +60,26 @@ PLAIN_ALPHABET = "cdghkmpqwz"  # no YAML 1.1 special word (y, n, yes, no, on, of
 FIXED_WORDS = {"abc", "a", "b", "A", "B", "C", "", " ", "x", "file.txt", "missing.txt"}
 EXISTING_FILE = "file.txt"  # ExistingFiles of spec/Types.tla: present in the working directory of every worker
 NONE = {"k": "none", "v": 0}
+DEFLEAF = ("rstr", "rnum", "reg")  # leaf types that are defined by the tables RStrDefs / RNumDefs / RegDefs of spec/Types.tla
+ATOMS = ("literal", "enum", "path") + DEFLEAF  # type terms without sub-terms (besides LEAF)
+REG = {"timedelta": timedelta, "range": range, "decimal": Decimal, "complex": complex, "uuid": UUID, "bytes": bytes}
+REG_INV = {v: k for k, v in REG.items()}
+TYPEDEFS = None  # the tables, as printed by TLC
+RSTR, RNUM = {}, {}  # name -> the real restricted type built from its definition
+RSTR_INV, RNUM_INV = {}, {}
+
+
+def install_typedefs(defs):
+    """build the user-defined restricted types from the definitions that the specification printed"""
+    global TYPEDEFS
+    TYPEDEFS = defs
+    for name, df in defs["rstr"].items():
+        RSTR[name] = restricted_string_type("V_" + name, df["pat"])
+        RSTR_INV[RSTR[name]] = name
+    for name, df in defs["rnum"].items():
+        base = int if df["base"] == "int" else float
+        RNUM[name] = restricted_number_type("V_" + name, base, [(op, base(n) if d == 1 else n / d) for op, n, d in df["rs"]], join=df["join"])
+        RNUM_INV[RNUM[name]] = name
 
 
 # ---------------------------------------------------------------- gamma: abstract -> real
@@ -75,6 +99,12 @@ def gamma_type(t):
         return ENUMS[a[0]["v"]]
     if k == "path":
         return Path_fr
+    if k == "rstr":
+        return RSTR[a[0]["v"]]
+    if k == "rnum":
+        return RNUM[a[0]["v"]]
+    if k == "reg":
+        return REG[a[0]["v"]]
     sub = [gamma_type(s) for s in a]
     _nocache()
     if k == "list":
@@ -98,6 +128,9 @@ def alpha_type(tp):
         return {"k": LEAF_INV[tp], "v": []}
     if tp is Path_fr:
         return {"k": "path", "v": []}
+    for kind, inv in (("rstr", RSTR_INV), ("rnum", RNUM_INV), ("reg", REG_INV)):
+        if tp in inv:
+            return {"k": kind, "v": [{"k": "name", "v": inv[tp]}]}
     if tp is list:
         return {"k": "list", "v": []}
     if tp is dict:
@@ -134,6 +167,8 @@ def gamma_val(x):
         return ENUMS[v[0]][v[1]]
     if k == "path":
         return Path_fr(v)
+    if k == "reg":
+        return reg_value(v[0], v[1])
     if k in ("list", "bag"):
         return [gamma_val(e) for e in v]
     if k == "tuple":
@@ -147,6 +182,53 @@ def gamma_val(x):
 
 class NotAbstractable(Exception):
     pass
+
+
+def _frac(text):
+    n, d = text.split("/")
+    return Fraction(int(n), int(d))
+
+
+def reg_value(name, code):
+    """the value of a registered type that a code of RegDefs names"""
+    if name == "timedelta":
+        return timedelta(microseconds=int(code))
+    if name == "range":
+        return range(*(int(c) for c in code.split(",")))
+    if name == "decimal":
+        f = _frac(code)
+        return Decimal(f.numerator) / Decimal(f.denominator)
+    if name == "complex":
+        re_, im = (_frac(c) for c in code.split(","))
+        return complex(float(re_), float(im))
+    if name == "uuid":
+        return UUID(code)
+    if name == "bytes":
+        return bytes.fromhex(code)
+    raise ValueError(name)
+
+
+def reg_code(v):
+    """-> (type name, code) of a value of a registered type, or None"""
+    if isinstance(v, timedelta):
+        return "timedelta", str(v // timedelta(microseconds=1))
+    if isinstance(v, range):
+        return "range", f"{v.start},{v.stop},{v.step}"
+    if isinstance(v, Decimal):
+        if not v.is_finite():
+            raise NotAbstractable(repr(v))
+        f = Fraction(v)
+        return "decimal", f"{f.numerator}/{f.denominator}"
+    if isinstance(v, complex):
+        if v.real != v.real or v.imag != v.imag or abs(v.real) == float("inf") or abs(v.imag) == float("inf"):
+            raise NotAbstractable(repr(v))
+        a, b = Fraction(v.real), Fraction(v.imag)
+        return "complex", f"{a.numerator}/{a.denominator},{b.numerator}/{b.denominator}"
+    if isinstance(v, UUID):
+        return "uuid", str(v)
+    if isinstance(v, (bytes, bytearray)):
+        return "bytes", bytes(v).hex()
+    return None
 
 
 def alpha_val(v):
@@ -172,6 +254,9 @@ def alpha_val(v):
         return {"k": "float", "v": [fr.numerator, fr.denominator]}
     if isinstance(v, JPath):
         return {"k": "path", "v": str(getattr(v, "relative", v))}
+    rc = reg_code(v)
+    if rc is not None:
+        return {"k": "reg", "v": [rc[0], rc[1]]}
     if isinstance(v, str):
         return {"k": "str", "v": str(v)}
     if isinstance(v, list):
@@ -209,6 +294,13 @@ def type_str(t) -> str:
         return {"none": "None", "any": "Any"}.get(k, k)
     if k == "path":
         return "Path_fr"
+    if k == "rstr":
+        return f"restricted_string_type('V_{a[0]['v']}', {TYPEDEFS['rstr'][a[0]['v']]['pat']!r})" if TYPEDEFS else "rstr:" + a[0]["v"]
+    if k == "rnum":
+        df = TYPEDEFS["rnum"][a[0]["v"]] if TYPEDEFS else None
+        return (f"restricted_number_type('V_{a[0]['v']}', {df['base']}, {[(op, n if d == 1 else n / d) for op, n, d in df['rs']]}, join={df['join']!r})" if df else "rnum:" + a[0]["v"])
+    if k == "reg":
+        return {"decimal": "Decimal", "uuid": "UUID"}.get(a[0]["v"], a[0]["v"])
     if k == "literal":
         return "Literal[" + ",".join(repr(gamma_val(m)) for m in a) + "]"
     if k == "enum":
@@ -223,7 +315,7 @@ def type_str(t) -> str:
 def perm_class(t) -> str:
     """the type with the members of every Union sorted: equal for all permutations."""
     k, a = t["k"], t["v"]
-    if k in LEAF or k in ("literal", "enum", "path"):
+    if k in LEAF or k in ATOMS:
         return canon(t)
     subs = [perm_class(s) for s in a]
     if k == "union":
@@ -244,6 +336,8 @@ def conforms_py(v, tp) -> bool:
         return type(v) is tp
     if tp is Path_fr:
         return isinstance(v, Path_fr)
+    if tp in RSTR_INV or tp in RNUM_INV or tp in REG_INV:
+        return type(v) is tp  # a value of a restricted type is an instance of the restricted class itself
     if isinstance(tp, type) and issubclass(tp, Enum):
         return isinstance(v, tp)
     origin, args = typing.get_origin(tp), typing.get_args(tp)
@@ -267,28 +361,31 @@ def conforms_py(v, tp) -> bool:
 
 
 # ---------------------------------------------------------------- executing cases on the real code
-def make_parser(tp, d=None, enable_path=False):
+CLASH_KEY = "items"  # an argument named like a method of Namespace
+
+
+def make_parser(tp, d=None, enable_path=False, key=KEY, **parser_kw):
     """one key of the given type; d: the default as a tagged value (None / none: no default)"""
-    p = ArgumentParser(exit_on_error=False)
+    p = ArgumentParser(exit_on_error=False, **parser_kw)
     kw = {"enable_path": True} if enable_path else {}
     if d is not None and d["k"] != "none":
         kw["default"] = gamma_val(d)
-    p.add_argument("--" + KEY, type=tp, **kw)
+    p.add_argument("--" + key, type=tp, **kw)
     return p
 
 
-def run_one(parser, tp, x, chan):
+def run_one(parser, tp, x, chan, key=KEY):
     """one parse of one key; returns {"ok", "v", "exc", "pyok"}"""
     try:
         if chan == "obj":
-            cfg = parser.parse_object({KEY: gamma_val(x)})
+            cfg = parser.parse_object({key: gamma_val(x)})
         else:
-            cfg = parser.parse_args([f"--{KEY}={x['v']}"])
+            cfg = parser.parse_args([f"--{key}={x['v']}"])
     except ArgumentError:
         return {"ok": False, "v": {"k": "none", "v": 0}, "exc": "", "pyok": True}
     except Exception as ex:  # not an ArgumentError: C03's business; for C02 it is a rejection
         return {"ok": False, "v": {"k": "none", "v": 0}, "exc": type(ex).__name__, "pyok": True}
-    val = cfg[KEY]
+    val = cfg[key]
     try:
         av = alpha_val(val)
     except NotAbstractable as ex:
@@ -302,7 +399,8 @@ def channels(x):
 
 def _work(job):
     """pool worker: one type term, many inputs."""
-    t, d, xs = job
+    t, d, xs = job[:3]
+    clash = len(job) > 3 and job[3]
     try:
         tp = gamma_type(t)
         back = alpha_type(tp)
@@ -317,7 +415,11 @@ def _work(job):
     out = []
     for x in xs:
         out.append([run_one(parser, tp, x, ch) for ch in channels(x)])
-    return {"t": t, "out": out}
+    res = {"t": t, "out": out}
+    if clash:  # the same values as objects for an argument named like a Namespace method
+        cparser = make_parser(tp, d, key=CLASH_KEY)
+        res["clash"] = [run_one(cparser, tp, x, "obj", key=CLASH_KEY) for x in xs]
+    return res
 
 
 def _enter(workdir):
@@ -344,13 +446,16 @@ TEXTS = None  # filled from the spec's vocabulary (printed by TLC) in main()
 
 
 def rand_type(rnd, depth, top=True):
-    leaves = ["str", "int", "float", "bool", "any", "enumE", "lit1", "lit2"] + ([] if top else ["none", "enumF", "lit3"])
+    leaves = ["str", "int", "float", "bool", "any", "enumE", "lit1", "lit2", "sku", "out01", "gthf", "td", "rng"] + ([] if top else ["none", "enumF", "lit3"])
     if depth <= 0 or rnd.random() < 0.25:
         c = rnd.choice(leaves)
         return {"enumE": {"k": "enum", "v": [{"k": "cls", "v": "E"}]}, "enumF": {"k": "enum", "v": [{"k": "cls", "v": "F"}]},
                 "lit1": {"k": "literal", "v": [{"k": "str", "v": "a"}, {"k": "int", "v": 1}, {"k": "none", "v": 0}]},
                 "lit2": {"k": "literal", "v": [{"k": "str", "v": "a"}, {"k": "str", "v": "b"}]},
-                "lit3": {"k": "literal", "v": [{"k": "bool", "v": True}, {"k": "int", "v": 2}]}}.get(c, {"k": c, "v": []})
+                "lit3": {"k": "literal", "v": [{"k": "bool", "v": True}, {"k": "int", "v": 2}]},
+                "sku": {"k": "rstr", "v": [{"k": "name", "v": "sku_u"}]}, "out01": {"k": "rnum", "v": [{"k": "name", "v": "out01i"}]},
+                "gthf": {"k": "rnum", "v": [{"k": "name", "v": "gthf"}]}, "td": {"k": "reg", "v": [{"k": "name", "v": "timedelta"}]},
+                "rng": {"k": "reg", "v": [{"k": "name", "v": "range"}]}}.get(c, {"k": c, "v": []})
     c = rnd.choice(["list", "list", "set", "tupleE", "tuple", "dict", "union", "union", "union"])
     if c in ("list", "tupleE"):
         return {"k": c, "v": [rand_type(rnd, depth - 1, False)]}
@@ -394,6 +499,13 @@ def good_value(rnd, t, texty=0.25):
     if k == "any":
         return rnd.choice([{"k": "int", "v": 3}, {"k": "str", "v": "1"}, {"k": "str", "v": rand_word(rnd)}, {"k": "list", "v": [{"k": "int", "v": 1}]},
                            {"k": "enum", "v": ["E", "A"]}, {"k": "str", "v": "[1, a]"}, {"k": "dict", "v": [[{"k": "str", "v": "a"}, {"k": "int", "v": 1}]]}])
+    if k == "rstr":
+        return {"k": "str", "v": rnd.choice(sorted(TYPEDEFS["rstr"][a[0]["v"]]["m"]) + ["xABC-1234", "sku ABC-1234"])}
+    if k == "rnum":
+        return rnd.choice([{"k": "int", "v": rnd.choice([-1, 0, 1, 2])}, {"k": "str", "v": rnd.choice(["2", "-1", "1.5", "1.0"])}, {"k": "float", "v": rnd.choice([[3, 2], [2, 1], [1, 2]])}])
+    if k == "reg":
+        df = TYPEDEFS["reg"][a[0]["v"]]
+        return {"k": "str", "v": rnd.choice(df["txt"])[0]} if rnd.random() < 0.6 else {"k": "reg", "v": [a[0]["v"], rnd.choice(df["ser"])[0]]}
     if k == "enum":
         name = rnd.choice(sorted(ENUMS[a[0]["v"]].__members__))
         return {"k": "str", "v": name} if rnd.random() < 0.6 else {"k": "enum", "v": [a[0]["v"], name]}
@@ -473,7 +585,7 @@ EQ_SCALARS = [{"k": "int", "v": 0}, {"k": "int", "v": 1}, {"k": "int", "v": 2}, 
 def rand_default(rnd, t):
     """a scalar default for a scalar-ish hint (canonical or valid but non-canonical), or none"""
     kinds = kinds_in(t)
-    if depth_of(t) > 1 or kinds & {"list", "set", "tuple", "tupleE", "dict", "any", "path"} or rnd.random() < 0.5:
+    if depth_of(t) > 1 or kinds & {"list", "set", "tuple", "tupleE", "dict", "any", "path", "rstr", "rnum", "reg"} or rnd.random() < 0.5:
         return NONE
     for _ in range(6):
         d = good_value(rnd, t, texty=0.0)
@@ -527,7 +639,7 @@ def random_cases(rnd, ntypes, per_type, maxdepth=4):
 
 def permute(rnd, t):
     k, a = t["k"], t["v"]
-    if k in LEAF or k in ("literal", "enum", "path"):
+    if k in LEAF or k in ATOMS:
         return t
     subs = [permute(rnd, s) for s in a]
     if k == "union":
@@ -536,13 +648,13 @@ def permute(rnd, t):
 
 
 def depth_of(t) -> int:
-    if t["k"] in LEAF or t["k"] in ("literal", "enum", "path") or not t["v"]:
+    if t["k"] in LEAF or t["k"] in ATOMS or not t["v"]:
         return 0
     return 1 + max(depth_of(s) for s in t["v"])
 
 
 # ---------------------------------------------------------------- verdicts
-DEV_KEYS = {"excLeak": "union-vals-last", "origNested": "union-orig-nested", "inPlace": "union-in-place", "validateLeak": "validate-leaks-into-result", "setListing": "set-listing-order", "litEq": "literal-eq",
+DEV_KEYS = {"clashKey": "clash-key-not-normalised", "excLeak": "union-vals-last", "origNested": "union-orig-nested", "inPlace": "union-in-place", "validateLeak": "validate-leaks-into-result", "setListing": "set-listing-order", "litEq": "literal-eq",
             "dictKey": "dict-key-unchecked", "serCollision": "set-written-with-duplicates"}
 
 
@@ -615,6 +727,8 @@ def gamma_repr(x) -> str:
     try:
         if x["k"] == "path":
             return f"Path_fr({x['v']!r})"
+        if x["k"] == "absent":
+            return "<key not given>"
         return repr(gamma_val(x))
     except Exception:
         return canon(x)
@@ -629,7 +743,7 @@ def python_repro(t, x, chan, d=None) -> str:
 def kinds_in(t, acc=None):
     acc = set() if acc is None else acc
     acc.add(t["k"])
-    if t["k"] not in ("literal", "enum", "path"):
+    if t["k"] not in ATOMS:
         for sub in t["v"]:
             kinds_in(sub, acc)
     return acc
@@ -656,6 +770,62 @@ def model_profile(cases) -> dict:
             fallback += c["x"]["k"] == "str" and c["av"] == c["x"] and c["t"]["k"] != "str"
     return {"by_top_level_type_kind": by_kind, "type_kinds_inside_accepted_cases": nested, "alg_result_kinds": results, "cases_per_named_deviation": devs,
             "inputs_by_kind": inputs, "accepted_cases_where_result_differs_from_input": normalised, "accepted_texts_kept_as_the_original_string_by_a_non_str_type": fallback}
+
+
+def typedef_check(rep, defs, texts):
+    """every row of the tables of the restricted / registered types on the real thing: Python's re.match, int(), float(), and
+    the serializer / deserializer that jsonargparse registers (no parser involved)"""
+    n = 0
+
+    def bad(key, what, case):
+        rep.violation(f"typedef-row:{key}", what, case)
+
+    probes = sorted(set(texts) | {m for df in defs["rstr"].values() for m in df["m"]})
+    for name, df in sorted(defs["rstr"].items()):
+        for text in probes:
+            n += 1
+            if bool(re.match(df["pat"], text)) != (text in df["m"]):
+                bad(f"rstr:{name}:{text}", f"re.match({df['pat']!r}, {text!r}) is {bool(re.match(df['pat'], text))}, the table of the specification says {text in df['m']}", {"text": text})
+    for tbl, fn in (("pyint", int), ("pyfloat", float)):
+        for text in probes:
+            n += 1
+            try:
+                got = Fraction(fn(text))
+                got = [got.numerator, got.denominator]
+            except ValueError:
+                got = None
+            want = defs[tbl].get(text)
+            want = [want, 1] if isinstance(want, int) else want
+            if got != want:
+                bad(f"{tbl}:{text}", f"{fn.__name__}({text!r}) gives {got}, the table of the specification says {want}", {"text": text})
+    for name, df in sorted(defs["reg"].items()):
+        handler = get_registered_type(REG[name])
+        for code, ser in df["ser"]:
+            n += 1
+            try:
+                got = canon(alpha_val(handler.serializer(reg_value(name, code))))
+            except Exception as ex:
+                got = f"{type(ex).__name__}: {ex}"
+            if got != canon(norm(ser)):
+                bad(f"reg:{name}:ser:{code}", f"the serializer of {name} writes {got} for {reg_value(name, code)!r}, the specification says {canon(ser)}", {"code": code})
+        for rows, conv in ((df["txt"], lambda r: r), (df["num"], gamma_val)):
+            for inp, code in rows:
+                n += 1
+                try:
+                    got = reg_code(handler.deserializer(conv(inp)))
+                    got = got[1] if got and got[0] == name else repr(got)
+                except Exception as ex:
+                    got = f"{type(ex).__name__}: {str(ex)[:80]}"
+                if got != code:
+                    bad(f"reg:{name}:read:{canon(inp)[:40]}", f"the deserializer of {name} reads {conv(inp)!r} as {got}, the specification says {code}", {"input": inp})
+        for text in df["bad"]:
+            n += 1
+            try:
+                got = handler.deserializer(text)
+                bad(f"reg:{name}:refuse:{text}", f"the deserializer of {name} accepts {text!r} ({got!r}), the specification says it is refused", {"text": text})
+            except Exception:
+                pass
+    return n
 
 
 def vocabulary_check(rep, texts_tbl):
@@ -711,16 +881,20 @@ def main(argv):
     vocab = [p for p in mc.printed if isinstance(p, dict) and "vocabulary" in p]
     if not vocab:
         machinery_failure(PID, "TLC did not print the text vocabulary")
+    tdefs = [p for p in mc.printed if isinstance(p, dict) and "typedefs" in p]
+    if not tdefs:
+        machinery_failure(PID, "TLC did not print the definitions of the restricted / registered types")
+    install_typedefs(tdefs[0]["typedefs"])
     tbl = {row[0]: row[1] for row in vocab[0]["vocabulary"]}
     TEXTS = sorted(set(tbl) | FIXED_WORDS)
-    n_vocab = vocabulary_check(rep, tbl)
+    n_vocab = vocabulary_check(rep, tbl) + typedef_check(rep, TYPEDEFS, TEXTS)
 
     # ---- REPLAY: every case on the real code
     by_type = {}
     for c in cases:
         by_type.setdefault((canon(c["t"]), canon(c["d"])), []).append(c)
     groups = sorted(by_type.items())
-    jobs = [(cs[0]["t"], cs[0]["d"], [c["x"] for c in cs]) for _, cs in groups]
+    jobs = [(cs[0]["t"], cs[0]["d"], [c["x"] for c in cs], "cok" in cs[0]) for _, cs in groups]
     results = run_jobs(jobs)
     stats = {"non_argument_errors": 0, "unbuildable_types": 0}
     n_exec = 0
@@ -742,6 +916,10 @@ def main(argv):
             if len(rep.samples) < 3 and c["dev"] == [] and c["acc"] and c["t"]["k"] == "union" and c["x"]["k"] in ("list", "str"):
                 rep.sample({"type": type_str(c["t"]), "input": gamma_repr(c["x"]), "python": python_repro(c["t"], c["x"], "obj", c["d"]),
                             "ref_accepts": c["acc"], "ref_results": c["res"], "alg_predicts": c["av"], "observed": outs[0]})
+        for c, real in zip(cs, r.get("clash", [])):  # the argument is called --items: Ref as before, Alg = AlgParseClash
+            n_exec += 1
+            stats["clash_key_executions"] = stats.get("clash_key_executions", 0) + 1
+            classify_replay(rep, {**c, "aok": c["cok"], "av": c["cv"], "dev": c["cdev"]}, "obj, argument named --" + CLASH_KEY, real, stats)
     pgroups = [g for g in verdicts.values() if len(g) > 1]
     stats["permutation_groups_compared"] = len(pgroups)
     stats["permutation_groups_with_different_real_verdicts"] = sum(1 for g in pgroups if len(set(g.values())) > 1)
@@ -765,7 +943,7 @@ def main(argv):
                 if real["ok"] and real["v"]["k"] == "other":
                     rep.violation(f"unknown-result:{shape(t, x)}", "the result is not a value of the model", {"t": t, "x": x, "observed": real})
                     continue
-                obs.append({"kind": "parse", "t": t, "d": d, "x": x, "ok": real["ok"], "v": real["v"]})
+                obs.append({"kind": "parse", "t": t, "d": d, "clash": False, "x": x, "ok": real["ok"], "v": real["v"]})
                 meta.append({"chan": ch, "pyok": real["pyok"], "exc": real["exc"]})
                 if (t["k"] not in LEAF or d["k"] != "none") and x["k"] != "none":
                     rep.note_nontrivial(canon(t) + "|" + canon(d) + "|" + canon(x))
